@@ -19,7 +19,8 @@ EXPLANATION = (
     "`data != existing_data`; (d) AGREE -- the path written, tested, read, stored in output.filepath and yielded "
     "by Write.run is one variable built by os.path.join(self.output_directory, dirname, filename[.ext]); "
     "(e) MakeFilename stores filename/dirname/fileext only when absent or overwrite is set, and deletes prefix and "
-    "suffix after using them.  Does not decide file contents or mtimes over histories.")
+    "suffix after using them; (g) LaTeXToPDF, which follows Write, does not default a missing output.changed to a falsy value: the "
+    "missing-flag handler sets the flag to True or to a comparison of the modification times of the .tex and the .pdf.  Does not decide file contents or mtimes over histories.")
 RULES = {
     "C19-a": "PAIR: a write in Write.run is followed by output.changed = True before the yield",
     "C19-b": "sticky flag: Write stores True or the incoming value; converters store False only when the incoming flag is falsy; groups use any()",
